@@ -17,7 +17,7 @@
 From Coq Require Import ZArith Bool Reals.
 From Flocq Require Import Core.Zaux Core.Raux Core.Defs IEEE754.Binary IEEE754.Bits.
 From FpyV Require Import Num.RealFloat Num.RealFloatProofs Num.Float Num.FloatProofs Num.Formats Num.Layout
-  Num.FormatsProofs Num.FormatsIEEEProofs Num.FormatsFixedProofs
+  Num.FormatsProofs Num.FormatsIEEEProofs Num.FormatsFixedProofs Num.FormatsFloatOrdProofs
   Num.FormatsBoundedLibProofs Num.FormatsBoundedRTProofs Num.FormatsBoundedOrdProofs Num.FormatsBoundedCandProofs
   Num.FormatsOrdMonoProofs Num.FormatsExamplesProofs.
 Open Scope Z_scope.
@@ -148,6 +148,63 @@ Theorem C16_mpbf_repr_iff_ord_range : forall g r,
    mpf_repr (g_mpf g) (FFin r) = true /\ g_neg_ord g <= mpf_to_ord_rf (g_mpf g) r <= g_pos_ord g).
 Proof. exact mpbf_repr_iff_ord_range. Qed.
 Print Assumptions C16_mpbf_repr_iff_ord_range.
+
+(* ================================================================ floating-point ordinals (unbounded: any precision, any emin) *)
+(* MPSFloatFormat._to_ordinal / from_ordinal, on which MPBFloatFormat,
+   EFloatFormat and IEEEFormat build: the ordinal reads the value on the
+   piecewise-linear scale `sordval` (subnormals, then 2^(p-1) codes per
+   binade), which is strictly increasing *)
+Theorem C16_mps_ord_value : forall f, 1 <= s_pmax f -> forall x, rf_wf x -> mps_repr_rf f x = true ->
+  R2R x = (IZR (sordval (2 ^ (s_pmax f - 1)) (mps_to_ord_rf f x)) * bpow radix2 (s_expmin f))%R.
+Proof. exact mps_ord_value. Qed.
+Print Assumptions C16_mps_ord_value.
+
+Theorem C16_sordval_strictly_increasing : forall d a b, 0 < d -> (sordval d a ?= sordval d b) = (a ?= b).
+Proof. exact sordval_compare. Qed.
+Print Assumptions C16_sordval_strictly_increasing.
+
+Theorem C16_mps_ord_compare : forall f, 1 <= s_pmax f -> forall x y, rf_wf x -> rf_wf y ->
+  mps_repr_rf f x = true -> mps_repr_rf f y = true ->
+  rf_compare x y = (mps_to_ord_rf f x ?= mps_to_ord_rf f y).
+Proof. exact mps_ord_compare. Qed.
+Print Assumptions C16_mps_ord_compare.
+
+Theorem C16_mps_to_from : forall f, 1 <= s_pmax f -> forall o,
+  mps_to_ord_rf f (mps_from_ord_rf f o) = o.
+Proof. exact mps_to_from. Qed.
+Print Assumptions C16_mps_to_from.
+
+Theorem C16_mps_from_ord_repr : forall f, 1 <= s_pmax f -> forall o,
+  mps_repr_rf f (mps_from_ord_rf f o) = true.
+Proof. exact mps_from_ord_repr. Qed.
+Print Assumptions C16_mps_from_ord_repr.
+
+Theorem C16_mps_from_to : forall f, 1 <= s_pmax f -> forall x, rf_wf x -> mps_repr_rf f x = true ->
+  R2R (mps_from_ord_rf f (mps_to_ord_rf f x)) = R2R x.
+Proof. exact mps_from_to. Qed.
+Print Assumptions C16_mps_from_to.
+
+(* bounded floats: representable = ordinal in the contiguous range *)
+Theorem C16_mpb_repr_iff_ord_range : forall m x,
+  1 <= b_pmax m -> rf_wf (b_pos m) -> rf_wf (b_neg m) -> rf_wf x ->
+  mps_repr_rf (b_mps m) (b_pos m) = true -> mps_repr_rf (b_mps m) (b_neg m) = true ->
+  rs (b_pos m) = false -> rs (b_neg m) = true ->
+  b_neg_ord m <= 0 <= b_pos_ord m /\
+  (mpb_repr m (FFin x) = true <->
+   mps_repr_rf (b_mps m) x = true /\ b_neg_ord m <= mps_to_ord_rf (b_mps m) x <= b_pos_ord m).
+Proof. exact mpb_repr_iff_ord_range. Qed.
+Print Assumptions C16_mpb_repr_iff_ord_range.
+
+(* every valid extended / IEEE format of any width: to_ordinal preserves the
+   order and from_ordinal returns the same number *)
+Theorem C16_efloat_ordinal_order : forall fx f x y ox oy, ef_valid f = true -> rf_wf x -> rf_wf y ->
+  ef_to_ord fx f (FFin x) false = Ok ox -> ef_to_ord fx f (FFin y) false = Ok oy ->
+  rf_compare x y = (ox ?= oy) /\
+  R2R (mps_from_ord_rf (b_mps (ef_mpb f)) ox) = R2R x /\
+  ef_from_ord f ox false = (if (ox >? b_pos_ord (ef_mpb f)) || (ox <? b_neg_ord (ef_mpb f)) then ef_from_ord f ox false
+                            else Ok (FFin (mps_from_ord_rf (b_mps (ef_mpb f)) ox))).
+Proof. exact ef_ordinal_order. Qed.
+Print Assumptions C16_efloat_ordinal_order.
 
 (* every ordinal format: next_up / next_down of a finite representable value
    are from_ordinal (ordinal +- 1) *)
